@@ -1,5 +1,6 @@
 (* Run_C06.v — case records and evaluators for the C06 / C07 correspondence checks. *)
-From PGV Require Import Base.Bytes Base.GoStr Spec.InjectSpec Model.Inject.
+From PGV Require Import Base.Bytes Base.GoStr.
+From PGV Require Export Spec.InjectSpec Model.Inject.   (* case files name their constructors *)
 
 Inductive case :=
 | CFile (f : gofile) (areas : list area) (outs : list str)
